@@ -144,6 +144,15 @@ def write_xlsx(path: str, sheets: list[dict], style: dict, typed=None):
                 c.value = v
                 c.data_type = "s"
                 c.number_format = "@"
+        # cells that exist but are empty beyond the table (formatted-but-blank columns / rows, as
+        # spreadsheet programs leave them): same content, more `None`s for `_sanitize`
+        n, h = len(s["headers"]), 1 + len(s["rows"])
+        for i in range(1, h + 1 + style.get("pad_rows", 0)):
+            for j in range(1, n + 1 + style.get("pad_cols", 0)):
+                if i > h or j > n:
+                    c = ws.cell(row=i, column=j)
+                    c.value = ""
+                    c.data_type = "s"
     wb.save(path)
 
 
@@ -272,7 +281,8 @@ def materialise(base: str, sheets: list[dict], style: dict) -> dict:
 
 
 def style_of(rng: random.Random) -> dict:
-    return {"lt": rng.choice(["\r\n", "\n"]), "quote_all": rng.random() < 0.3, "skip_empty": rng.random() < 0.5}
+    return {"lt": rng.choice(["\r\n", "\n"]), "quote_all": rng.random() < 0.3, "skip_empty": rng.random() < 0.5,
+            "pad_cols": rng.choice([0, 0, 1, 3]), "pad_rows": rng.choice([0, 0, 1, 4])}
 
 
 def read_worker(seeds):
@@ -284,7 +294,7 @@ def read_worker(seeds):
         out["strata"][k] = out["strata"].get(k, 0) + n
 
     try:
-        pending = []
+        pending, styles = [], []
         for seed in seeds:
             rng = random.Random(seed)
             sheets = gen_workbook(rng)
@@ -300,6 +310,8 @@ def read_worker(seeds):
             count("csv_lineterminator=" + repr(style["lt"]))
             count("csv_quote_all" if style["quote_all"] else "csv_quote_minimal")
             count("xlsx_empty_cells_absent" if style["skip_empty"] else "xlsx_empty_cells_as_empty_text")
+            count("xlsx_blank_columns_beyond_table" if style["pad_cols"] else "xlsx_no_blank_columns_beyond_table")
+            count("xlsx_blank_rows_beyond_table" if style["pad_rows"] else "xlsx_no_blank_rows_beyond_table")
             for s in sheets:
                 out["sheets"] += 1
                 out["cells"] += len(s["rows"]) * len(s["headers"])
@@ -323,16 +335,31 @@ def read_worker(seeds):
                     out["viol"].append({"what": f"{label}: sheets read differ from the sheets written", "diff": d,
                                         "workbook": minimise_to_sheet(sheets, d), "style": style, "format": label, "seed": seed})
             pending.append((sheets, m["texts"], got_by, seed))
+            styles.append(style)
         # B: the model on every sheet
         reqs, owners = [], []
         for wi, (sheets, texts, got_by, seed) in enumerate(pending):
             for s in sheets:
                 reqs.append({"op": "sheets.all", "name": s["name"], "headers": s["headers"], "rows": s["rows"]})
                 owners.append((wi, s))
+                pc, pr = styles[wi].get("pad_cols", 0), styles[wi].get("pad_rows", 0)
+                width = len(s["headers"]) + pc
+                reqs.append({"op": "sheets.sanitize", "headers": [(h or None) for h in s["headers"]] + [None] * pc,
+                             "rows": [[(c or None) for c in r] + [None] * pc for r in s["rows"]] + [[None] * width] * pr})
+                owners.append((wi, None))
         answers = drv.results(reqs)
         json_pairs_cache = {}
+        prev = None
         for (wi, s), ans in zip(owners, answers):
             sheets, texts, got_by, seed = pending[wi]
+            if s is None:
+                # the grid as openpyxl delivers it (with the blank cells beyond the table) through the model's _sanitize
+                real = got_by["xlsx"]
+                real_t = real.get(prev["name"]) if "__exc__" not in real else {"__exc__": real["__exc__"]}
+                if model_table(ans) != real_t and len(out["ties"]) < 10:
+                    out["ties"].append({"what": "model _sanitize on the padded grid and real XLSX reader differ", "sheet": prev, "style": styles[wi], "model": model_table(ans), "real": real_t, "seed": seed})
+                continue
+            prev = s
             if "__error__" in ans:
                 out["ties"].append({"what": "driver error", "sheet": s, "error": ans["__error__"]})
                 continue
@@ -524,9 +551,9 @@ def direct_worker(seeds):
                 for r in real["rows"]:
                     if len(r) != len(hs) or not all(type(c) is str for c in r) or not any(r):
                         out["viol"].append({"what": "_sanitize returned a row that is not header-count many strings with one non-empty", "grid": g, "row": r})
-                if any(r for r in g["rows"] if any(str(v) for v in r[:len(hs)] if v is not None)) and len(real["rows"]) < sum(
-                        1 for r in g["rows"] if any(str(v) for v in r[:len(hs)] if v is not None)):
-                    out["viol"].append({"what": "_sanitize dropped a row that has a non-empty cell under a header", "grid": g, "got": real})
+                kept = sum(1 for r in g["rows"] if any((str(v) if v is not None else "") for v in r[:len(hs)]))
+                if len(real["rows"]) != kept:
+                    out["viol"].append({"what": "_sanitize does not keep exactly the rows that have a non-empty cell under a header", "grid": g, "got": real})
             c = gen_jcontent(rng)
             reqs.append({"op": "sheets.readjson", "content": jcontent_json(c)})
             real = real_readjson(c, tmp, out["n"])
@@ -657,6 +684,21 @@ def compile_worker(seeds):
                             else f"compiling the {label} workbook differs from compiling the CSV workbook")
                     out["viol"].append({"what": what, "workbook": sheets, "style": style, "format": label, "seed": seed,
                                         "csv": summarise(a), label: summarise(b), "first_difference": doc_diff(a, b)})
+            # CompositeSheetReader: the same sheets split over two inputs of the same format
+            if len(sheets) >= 2 and rng.random() < 0.35:
+                k = rng.randint(1, len(sheets) - 1)
+                ma = materialise(base + "_a", sheets[:k], style)
+                mb = materialise(base + "_b", sheets[k:], style)
+                count("split_over_two_inputs")
+                a = {k_: v for k_, v in ref.items() if k_ in ("ok", "exc", "errors")}
+                for label in FORMATS:
+                    (fa, pa), (fb, pb) = ma["paths"][label], mb["paths"][label]
+                    r2 = {"exc": "convert failed"} if "__exc__" in (fa, fb) else compile_real(fa, [pa, pb])
+                    b = {k_: v for k_, v in r2.items() if k_ in ("ok", "exc", "errors")}
+                    if a != b and len(out["viol"]) < 5:
+                        out["viol"].append({"what": f"compiling the workbook split over two {label} inputs differs from compiling the single CSV workbook",
+                                            "workbook": sheets, "split_at": k, "style": style, "format": label, "seed": seed,
+                                            "csv": summarise(a), "split": summarise(b), "first_difference": doc_diff(a, b)})
             # json<xlsx vs xlsx directly (convert→compile = compile, for the XLSX source)
             a = {k: v for k, v in res["xlsx"].items() if k in ("ok", "exc", "errors")}
             b = {k: v for k, v in res["json<xlsx"].items() if k in ("ok", "exc", "errors")}
@@ -1014,7 +1056,7 @@ def run(ck: core.Check):
     import rpft.converters  # noqa: F401  (fail early → infra)
 
     quick = ck.tier == "quick"
-    n_read, n_comp, n_direct, n_cli = (320, 160, 3000, 4) if quick else (4000, 1500, 40000, 32)
+    n_read, n_comp, n_direct, n_cli = (800, 400, 6000, 8) if quick else (8000, 3000, 60000, 48)
 
     tmp = tempfile.mkdtemp(prefix="c14_")
     try:
@@ -1033,7 +1075,7 @@ def run(ck: core.Check):
     fold(ck, par.pmap(cli_worker, core.shard(seeds(n_cli), min(par.NPROC, n_cli))), "cli_workbooks")
 
     # self-check of the generator's reach (exit 2, not a violation)
-    need = ["cell_newline", "cell_comma", "cell_quote", "cell_astral", "cell_empty", "cell_lead_eq_or_apostrophe", "compiled_ok",
+    need = ["split_over_two_inputs", "cell_newline", "cell_comma", "cell_quote", "cell_astral", "cell_empty", "cell_lead_eq_or_apostrophe", "compiled_ok",
             "sanitize:ok", "sanitize:allNoneHeaders", "sanitize:noHeaders", "readjson:invalidDimensions", "readjson:ok", "tojson:dup_headers"]
     missing = [k for k in need if not ck.strata.get(k)]
     if missing:
